@@ -155,24 +155,53 @@ Theorem domain_stable :
     c10_domain E re_ok (norm_query q) = true /\ norm_query (norm_query q) = norm_query q.
 Proof. intros E ro q H1 WT UE HE. apply domain_stable_env; auto. apply default_tokens_ok. exact HE. Qed.
 
-(* every compiled query is in the domain, up to the two float conditions (which the run-time
-   correspondence evaluates on every compiled query: Extract.v exports floats_ok / floats_stable) *)
+(* every compiled query is in the domain: the parser only accepts float literals whose repr reads
+   back as the same float (FloatDomain.parsed_float_ok) *)
+Theorem compiled_domain :
+  forall (E : env) re_ok (text : ustr) (q : query),
+    in_range (e_min_index E) (e_max_index E) 1%Z = true -> e_well_typed E = true ->
+    compile E re_ok text = Ok q ->
+    c10_domain E re_ok q = true.
+Proof.
+  intros E ro text q H1 WT Hc. unfold c10_domain.
+  rewrite (gate_sound E ro text q WT Hc).
+  rewrite (compiled_printable E ro text q Hc H1).
+  rewrite (compiled_reparsable E ro text q H1 Hc).
+  rewrite (compiled_floats_stable E ro text q Hc H1). reflexivity.
+Qed.
+
+(* the former statement, with the two float premises that are no longer needed *)
 Theorem compiled_domain_partial :
   forall (E : env) re_ok (text : ustr) (q : query),
     in_range (e_min_index E) (e_max_index E) 1%Z = true -> e_well_typed E = true ->
     compile E re_ok text = Ok q ->
     floats_ok q = true -> floats_stable q = true ->
     c10_domain E re_ok q = true.
-Proof.
-  intros E ro text q H1 WT Hc Hfo Hfs. unfold c10_domain.
-  rewrite (gate_sound E ro text q WT Hc).
-  rewrite (compiled_printable_partial E ro text q H1 Hc Hfo).
-  rewrite (compiled_reparsable E ro text q H1 Hc). rewrite Hfs. reflexivity.
-Qed.
+Proof. intros E ro text q H1 WT Hc _ _. exact (compiled_domain E ro text q H1 WT Hc). Qed.
 
 (* ---- the headline statement, for the default environment ------------------------------------ *)
 Lemma default_env_tokens : default_tokens default_env.
 Proof. unfold default_tokens. repeat split; reflexivity. Qed.
+
+Theorem string_form_total :
+  forall re_ok (text : ustr) (q : query) (t : ustr),
+    compile default_env re_ok text = Ok q ->
+    query_text default_env q = Ok t ->
+    exists q',
+      compile default_env re_ok t = Ok q' /\
+      (forall rf rs d ctx, compound_finditer default_env rf rs q' d ctx = compound_finditer default_env rf rs q d ctx) /\
+      query_text default_env q' = Ok t /\
+      c10_domain default_env re_ok q' = true.
+Proof.
+  intros ro text q t Hc Ht.
+  assert (H1 : in_range (e_min_index default_env) (e_max_index default_env) 1%Z = true) by reflexivity.
+  pose proof (compiled_domain default_env ro text q H1 eq_refl Hc) as HD.
+  exists (norm_query q). split; [|split; [|split]].
+  - apply (roundtrip default_env ro q t default_env_tokens eq_refl eq_refl HD Ht).
+  - intros rf rs d ctx. apply norm_equiv.
+  - apply (fixed_point default_env ro q t HD Ht).
+  - apply (proj1 (domain_stable default_env ro q H1 eq_refl eq_refl default_env_tokens HD t Ht)).
+Qed.
 
 Theorem string_form :
   forall re_ok (text : ustr) (q : query) (t : ustr),
@@ -199,6 +228,27 @@ Qed.
 (* ---- C17: any admissible assignment of spellings -------------------------------------------- *)
 (* the string form produced by an environment recompiles in that environment to an equivalent
    query with the same string form *)
+Theorem string_form_env_total :
+  forall (E : env) re_ok (text : ustr) (q : query) (t : ustr),
+    tokens_ok E = true -> e_well_typed E = true -> e_unicode_escape E = true ->
+    in_range (e_min_index E) (e_max_index E) 1%Z = true ->
+    compile E re_ok text = Ok q ->
+    query_text E q = Ok t ->
+    exists q',
+      compile E re_ok t = Ok q' /\
+      (forall rf rs d ctx, compound_finditer E rf rs q' d ctx = compound_finditer E rf rs q d ctx) /\
+      query_text E q' = Ok t /\
+      c10_domain E re_ok q' = true.
+Proof.
+  intros E ro text q t HE WT UE H1 Hc Ht.
+  pose proof (compiled_domain E ro text q H1 WT Hc) as HD.
+  exists (norm_query q). split; [|split; [|split]].
+  - apply (roundtrip_env E ro q t HE WT UE HD Ht).
+  - intros rf rs d ctx. apply norm_equiv.
+  - apply (fixed_point E ro q t HD Ht).
+  - apply (proj1 (domain_stable_env E ro q H1 WT UE HE HD t Ht)).
+Qed.
+
 Theorem string_form_env :
   forall (E : env) re_ok (text : ustr) (q : query) (t : ustr),
     tokens_ok E = true -> e_well_typed E = true -> e_unicode_escape E = true ->
